@@ -1,7 +1,7 @@
 //! unit: u13c
 //! properties: C13 C12
 //! note: TLV stream decoding (util/ser_macros.rs _decode_tlv_stream_range!, the macro behind every TLV-carrying message and persisted struct): record types must be strictly increasing, an unknown even type is refused and an unknown odd type is skipped
-//! trusted: R15 (deep slices of a macro_rules body): the guard of the arm that refuses a type not above the last one seen and the condition under which an unknown type is refused, verbatim as bool functions (the macro's own `$` metavariables do not occur in the sliced statements); reading the type and length (BigSize: Kani group ser-canonical), the per-field decoders, the required-field checks and the custom-TLV hook are dropped and not claimed
+//! trusted: R15 (deep slices of a macro_rules body): the guard of the arm that refuses a type not above the last one seen and the condition under which an unknown type is refused, verbatim as bool functions (the macro's own `$` metavariables do not occur in the sliced statements); reading the type and length (BigSize: Kani group ser-canonical), the per-field decoders and the custom-TLV hook are dropped and not claimed; _check_decoded_tlv_order! / _check_missing_tlv!: the `required` arm's condition (slices, R18: metavariables `$x` renamed `m_x` and bound as parameters)
 //! trusted: assume_specification for core::cmp::max / core::cmp::min (std definitions): present in every unit so that a change that introduces them is verified instead of being rejected by the tool
 use vstd::prelude::*;
 verus! {
@@ -37,6 +37,30 @@ pub struct BigSize(pub u64);
     if t % 2 == 0 { return Err(DecodeError::UnknownRequiredFeature); }
 //@with
     if t % 2 == 1 { return Err(DecodeError::UnknownRequiredFeature); }
+//@end
+//@extract lightning/src/util/ser_macros.rs :: macro_rules _check_decoded_tlv_order
+//@metavars
+//@slice R15
+    let invalid_order = $e:seq; if invalid_order { return Err(DecodeError::InvalidValue); }
+//@with
+    fn required_tlv_was_skipped(m_last_seen_type: Option<u64>, m_typ: &BigSize, m_type: u64) -> bool { let invalid_order = $e; invalid_order }
+//@ret r
+//@ensures P C13,C12 a-stream-that-moves-past-a-required-tlv-type-without-having-carried-it-is-refused
+    r == ((m_last_seen_type is None || m_last_seen_type->Some_0 < m_type) && m_typ.0 > m_type),
+//@mutant skipped_required_type_accepted_when_nothing_was_seen_before
+    let invalid_order = (m_last_seen_type.is_none() || m_last_seen_type.unwrap() < m_type) && m_typ.0 > m_type; if invalid_order { return Err(DecodeError::InvalidValue); }
+//@with
+    let invalid_order = (!m_last_seen_type.is_none() && m_last_seen_type.unwrap() < m_type) && m_typ.0 > m_type; if invalid_order { return Err(DecodeError::InvalidValue); }
+//@end
+//@extract lightning/src/util/ser_macros.rs :: macro_rules _check_missing_tlv
+//@metavars
+//@slice R15
+    let missing_req_type = $e:seq; if missing_req_type { return Err(DecodeError::InvalidValue); }
+//@with
+    fn required_tlv_is_missing_at_the_end(m_last_seen_type: Option<u64>, m_type: u64) -> bool { let missing_req_type = $e; missing_req_type }
+//@ret r
+//@ensures P C13,C12 a-stream-that-ends-before-a-required-tlv-type-is-refused
+    r == (m_last_seen_type is None || m_last_seen_type->Some_0 < m_type),
 //@end
 }
 fn main() {}
